@@ -16,7 +16,7 @@ EXPLANATION = ("real repair_dna on a corrupted strand c = edit(w): w is an arbit
 STUBS = []
 ASSUMPTIONS = ["graphs are concrete members of a small family of generated graphs (see C10); walk, replacement nucleotide and check are symbolic; "
                "edit positions and kinds are enumerated as separate explorations"]
-BUDGET_S = {"quick": 1500, "thorough": 10000}
+BUDGET_S = {"quick": 1500, "thorough": 1500}
 
 
 def make_loader(cfg):
